@@ -334,8 +334,8 @@ def check_site(repo, col, cl: Classifier, rule, fi, kind, arr, idx, node, kcs=KC
     arr = strip_alias(repo, arr) if arr.op in ("item", "mcall", "call") else arr
     if isinstance(fi, FuncInfo):
         try:
-            from sa.terms import fuse_comprehensions as _fuse
-            idx = _fuse(inline(repo, fi, idx))  # an index produced by a helper / comprehension is classified through it
+            from sa.terms import fuse_comprehensions as _fuse, counter_entries as _entries
+            idx = _fuse(_entries(inline(repo, fi, idx)))  # an index produced by a helper / comprehension is classified through it
         except Exception:
             pass
     if arr.op == "sub":
